@@ -656,6 +656,115 @@ def spaces(tier, variant, seed):
     sp.append(Space("sscanf_roundtrip", list(range(len(SC))), sc_cases, sc_one,
                     "gmp_sscanf reads back every string gmp_snprintf produced with the matching conversion (d<->d, x<->x, #x/#o<->i): single field, three fields with %d and %n, early mismatch count, %Qd"))
 
+    # ---- gmp_sscanf against the C library's sscanf on the equal long: return count, assigned values, %n, for complete inputs, inputs cut
+    #      after every character and inputs with a foreign character at every position ----
+    import re as _re
+    libc = ctypes.CDLL(None)
+    libc_sscanf = libc.sscanf
+    libc_sscanf.restype = c_int
+    SF = ["%Zd", "%Zd %Zd", "%Zd,%Zd,%Zd", " %Zd x%Zd", "%3Zd%Zd", "%Zd%n", "%*Zd %Zd", "%Zd%%%Zd", "%Zi %Zi", "%Zx %Zo", "%5Zx|%Zd", "a%Zdb%Zd", "%Zd %d %Zd", "%d %Zd",
+          "%Zd %s", "%c%Zd", "%Zd %n%Zd%n", "%2Zd%2Zd%2Zd", "%Zd %*d %Zd", "%Zd-%Zd", "%Zu %Zd"]
+    SI = {
+        "%Zd": ["123", "-45", "  7", "+9", "12x", ""],
+        "%Zd %Zd": ["12345 678", "1 -2", "5", "7  ", "12,3"],
+        "%Zd,%Zd,%Zd": ["1,2,3", "10,-20,30", "1,2", "1,,3", "1 ,2,3"],
+        " %Zd x%Zd": [" 5 x6", "5x6", "  12 x-3", "5 y6"],
+        "%3Zd%Zd": ["12345", "12 345", "-12345", "1"],
+        "%Zd%n": ["123", "123 ", "  -5x"],
+        "%*Zd %Zd": ["1 2", "11 -22 33", "5"],
+        "%Zd%%%Zd": ["50%60", "50 %60", "50%", "50x60"],
+        "%Zi %Zi": ["0x1f 017", "10 0x10", "-0x10 0", "077 8"],
+        "%Zx %Zo": ["ff 17", "-1F 7", "0xff 017", "g 1"],
+        "%5Zx|%Zd": ["abcde|5", "abcdef|5", "ab|77"],
+        "a%Zdb%Zd": ["a1b2", "a-10b+20", "a1c2", "b1b2", "a1b"],
+        "%Zd %d %Zd": ["1 2 3", "100 -200 300", "1 2", "1 x 3"],
+        "%d %Zd": ["4 5", "-4 -5", "4"],
+        "%Zd %s": ["12 abc", "12", "-7   word more"],
+        "%c%Zd": ["x12", " 12", "-5"],
+        "%Zd %n%Zd%n": ["1 2", "10   20 ", "3"],
+        "%2Zd%2Zd%2Zd": ["123456", "12345", "-12-34", "1 2 3"],
+        "%Zd %*d %Zd": ["1 2 3", "1 2", "1 x 3"],
+        "%Zd-%Zd": ["10-20", "10--20", "10 -20", "10-"],
+        "%Zu %Zd": ["10 20", "7", "+5 -5"],
+    }
+
+    def sl_ok(fmt, inp):
+        # outside the comparison: (1) a "0x" prefix not followed by a hex digit - glibc stores 0 and counts the field where the C standard
+        # (and MPIR) see a matching failure; (2) white space in front of a '%' matched by "%%" - C skips it for every conversion
+        # specification, MPIR treats %% as a literal; neither concerns reading back printed values or the count of assigned fields
+        if _re.search(r"0[xX](?![0-9a-fA-F])", inp):
+            return False
+        if "%%" in fmt and _re.search(r"\s%", inp):
+            return False
+        # (3) "0x" in front of a %Zx field: the C library's %lx accepts the prefix (strtoul rules), MPIR's %Zx reads plain hex digits like
+        # mpz_set_str in base 16 does; prefixed text is read back with %Zi, which the round-trip space covers
+        if _re.search(r"Z[xX]", fmt) and _re.search(r"0[xX]", inp):
+            return False
+        return True
+
+    def sl_cases(blk):
+        fi = blk
+        for inp in SI[SF[fi]]:
+            for k in range(len(inp) + 1):
+                if sl_ok(SF[fi], inp[:k]):
+                    yield (fi, inp[:k])
+            for pos in range(len(inp) + 1):
+                t = inp[:pos] + "!" + inp[pos:]
+                if sl_ok(SF[fi], t):
+                    yield (fi, t)
+
+    CONV = _re.compile(r"%(\*?)(\d*)(Z?)([diouxXnsc%])")
+
+    def sl_one(case, R):
+        fi, inp = case
+        e = env()
+        fmt = SF[fi]
+        gfm = fmt.encode()
+        cfm = CONV.sub(lambda m: "%" + m.group(1) + m.group(2) + ("l" if m.group(3) and m.group(4) != "%" else "") + m.group(4), fmt).encode()
+        ga, ca, kinds = [], [], []
+        zs = [lib.Z() for _ in range(4)]
+        zi = 0
+        for m in CONV.finditer(fmt):
+            star, width, zmod, conv = m.groups()
+            if conv == "%" or star:
+                continue
+            if zmod:
+                z = zs[zi]
+                zi += 1
+                z.set(777)
+                ga.append(c_void_p(z.p))
+                cl = c_long(777)
+                ca.append(cl)
+                kinds.append(("Z", z, cl))
+            elif conv in "din":
+                gi, ci = c_int(777), c_int(777)
+                ga.append(gi)
+                ca.append(ci)
+                kinds.append(("i", gi, ci))
+            else:
+                gb, cb = ctypes.create_string_buffer(b"\x55" * 63, 64), ctypes.create_string_buffer(b"\x55" * 63, 64)
+                ga.append(gb)
+                ca.append(cb)
+                kinds.append(("s", gb, cb))
+        bi = inp.encode()
+        rg = g_sscanf(bi, gfm, *[a if isinstance(a, c_void_p) else byref(a) if not isinstance(a, ctypes.Array) else a for a in ga])
+        rc = libc_sscanf(bi, cfm, *[byref(a) if not isinstance(a, ctypes.Array) else a for a in ca])
+        if rg != rc:
+            R.fail("gmp_sscanf", "format %r input %r: returned %d, the C library returns %d for %r" % (fmt, inp, rg, rc, cfm))
+        for j, (k, g_, c_) in enumerate(kinds):
+            if k == "Z":
+                if g_.get() != c_.value or g_.wf():
+                    R.fail("gmp_sscanf", "format %r input %r: field %d is %d, the C library stores %d" % (fmt, inp, j, g_.get(), c_.value))
+            elif k == "i":
+                if g_.value != c_.value:
+                    R.fail("gmp_sscanf", "format %r input %r: int field %d is %d, the C library stores %d" % (fmt, inp, j, g_.value, c_.value))
+            elif g_.raw != c_.raw:
+                R.fail("gmp_sscanf", "format %r input %r: string field %d differs" % (fmt, inp, j))
+        return ("sl", fi, rg, len(inp) > 3)
+
+    sp.append(Space("sscanf_vs_libc", list(range(len(SF))), sl_cases, sl_one,
+                    "gmp_sscanf vs the C library's sscanf on the same text (Z conversions against %ld/%li/%lx/%lo): 21 formats (several fields, literals, %%, widths, suppression, %n, mixed standard conversions) x complete inputs, every prefix, a foreign character at every position: same count, same stored values"))
+
     FS = [Fraction(0), Fraction(1), Fraction(-3, 2), Fraction(5, 8), Fraction(1 << 40), Fraction(-1, 1 << 10), Fraction(12345678), Fraction(1, 4)]
 
     def fsc_cases(blk):
